@@ -23,7 +23,7 @@ TB = [
     "paragraph text is observed through _Paragraph.text (a:br reads as vertical tab); the run structure inside a paragraph is outside the model (C04 covers it)",
 ]
 ASSUME = [
-    "tables are those created by shapes.add_table (every a:tc has an a:txBody with at least one a:p, spans >= 1), half of them then put into a schema-valid form only other producers write (no a:tblPr, a:extLst at the end of rows and cells); tables loaded from foreign files with arbitrary span attributes or missing paragraphs are outside the model (the model answers OtherErr there)",
+    "tables are those created by shapes.add_table (every a:tc has an a:txBody with at least one a:p, spans >= 1), half of them then put into a schema-valid form only other producers write (no a:tblPr, a:extLst at the end of rows and cells, cells without the optional a:txBody); tables loaded from foreign files with arbitrary span attributes or missing paragraphs are outside the model (the model answers OtherErr there)",
     "arguments are python ints, indices non-negative (negative python indices and non-int sizes are outside the model)",
     "ZeroDivisionError for rows = 0 or cols = 0 is reported as the error class Other on both sides",
 ]
@@ -55,7 +55,8 @@ class Impl:
             for tc in tr.findall(NS + "tc"):
                 cell = _Cell(tc, table)
                 txBody = tc.find(NS + "txBody")
-                paras = [] if txBody is None else [p.text for p in cell.text_frame.paragraphs]
+                # a cell without the optional a:txBody has no text: the same content as one empty paragraph
+                paras = [""] if txBody is None else [p.text for p in cell.text_frame.paragraphs]
                 cells.append((cell.span_width, cell.span_height, bool(tc.hMerge), bool(tc.vMerge),
                               bool(cell.is_merge_origin), bool(cell.is_spanned), tuple(paras)))
             rows.append(cells)
@@ -85,6 +86,13 @@ class Impl:
                 for tc in tr.findall(A + "tc"):
                     etree.SubElement(tc, A + "extLst")
                 etree.SubElement(tr, A + "extLst")
+        # a:tc without the optional a:txBody (an empty cell as other producers write it): about half of the cells of
+        # every other such table; python-pptx creates the text body on demand (merge, text assignment)
+        if (zlib.crc32(repr(case).encode("utf-8", "surrogatepass")) >> 3) % 2:
+            for i, tc in enumerate(tbl.iter(A + "tc")):
+                body = tc.find(A + "txBody")
+                if body is not None and (i + v) % 2 == 0:
+                    tc.remove(body)
 
     def apply(self, table, op):
         k = op[0]
